@@ -8,6 +8,34 @@ TRUSTED_BASE = [
 ]
 
 PROPS = {
+    "C14": {
+        "modules": ["Replicon.Props.C14"],
+        "theorems": [
+            "Replicon.C14.C14_deterministic",
+            "Replicon.C14.C14_input_injective",
+            "Replicon.C14.C14_fnv_step_injective",
+            "Replicon.C14.C14_single_byte",
+            "Replicon.C14.C14_kind_change",
+            "Replicon.C14.C14_priority_change",
+            "Replicon.C14.C14_handshake",
+        ],
+        "const_obligations": ["Consts.fnvOffset / fnvPrime (fnv crate locked in Cargo.lock)", "ProtocolPart variant order and repr(u8)", "ProtocolHasher::hash feeds part then type name"],
+        "profiles": [{"name": "c14"}],
+        "rule": "c14pair: real Apps (MinimalPlugins + RepliconPlugins) built from a generated registration sequence a (0..8 registrations over "
+                "22 menu items: single rules, once, bundles in both orders, custom priorities 0/2/257/2^40, tuple rules, client/server events and "
+                "triggers, independence marks) and from a single-step edit b of it (swap, insert, delete, change in place); their real "
+                "ProtocolHash values and a second build of a are compared with the Lean model hash (type names passed as data) and with the "
+                "oracle: equal registration sequences <=> equal hashes. c14hs: a server built from a and a client built from b connect under "
+                "the default AuthMethod::ProtocolCheck; AuthorizedClient / ProtocolMismatch / DisconnectRequest are compared with "
+                "checkProtocol. distinct_nontrivial = distinct pairs whose registration sequences differ + handshakes.",
+        "trusted_extra": [
+            "modelled, not verified: #[derive(Hash)] on a repr(u8) enum (one discriminant byte, u64 little endian), str::hash (bytes + 0xff), "
+            "the fnv crate (constants scraped from its source), any::type_name (taken as data)",
+            "the absence of an FNV collision on a concrete pair that differs in more than one byte is computed (tested) per generated pair, not proved: "
+            "no 64-bit hash can separate all pairs",
+        ],
+        "assumptions": ["type names are valid UTF-8 (no 0xff byte)"],
+    },
     "C18": {
         "modules": ["Replicon.Props.C18"],
         "theorems": [
@@ -115,6 +143,19 @@ PROPS = {
 }
 
 MANIFEST_TEXT = {
+    "C14": {
+        "text": "Lean theorems: the hasher's byte input is an injective code of the registration sequence (order, kind, type name, priority, "
+                "independence; C14_input_injective), every FNV-1a step is a bijection and inputs differing in one byte hash differently "
+                "(C14_single_byte), hence a change of kind or of priority within a byte changes the hash (C14_kind_change, C14_priority_change); "
+                "check_protocol authorizes exactly on equal hashes and otherwise notifies and requests a disconnect (C14_handshake). The universal "
+                "'different sequences => different hashes' is false for any 64-bit hash; for multi-byte edits the inequality is computed on each "
+                "generated pair. Model hash = real ProtocolHash on 1200 app pairs per quick run; FNV constants and the ProtocolPart layout are "
+                "regenerated from the sources on every run.",
+        "design_ref": "DESIGN.md §7 C14",
+        "note": "partial by mathematics, not by effort: collision-freedom on arbitrary pairs is unprovable; stated in the theorem file. "
+                "Trusted: Lean kernel, harness/driver, extractor, derive(Hash)/str::hash layout as modelled (checked by hash equality on every case).",
+        "technique": "Lean 4 proof (injective encoding by a verified parser; FNV step bijectivity via the modular inverse of the prime) + constants extraction + differential hash equality on real apps",
+    },
     "C18": {
         "text": "Lean theorems about a model of scene::replicate_into for every rule list (any overlap, order, priorities), every reflectability "
                 "predicate and every world: exactly the pre-existing entries plus one per marked entity (C18_entities), the exported components "
